@@ -134,6 +134,9 @@ func (obj *SparseReal64Vector) SET(x *SparseReal64Vector) {
   }
 }
 func (obj *SparseReal64Vector) SLICE(i, j int) *SparseReal64Vector {
+  if i < 0 || j < i || j > obj.n {
+    panic("index out of bounds")
+  }
   r := nilSparseReal64Vector(j-i)
   for it := obj.indexIteratorFrom(i); it.Ok(); it.Next() {
     if it.Get() >= j {
